@@ -138,10 +138,11 @@ TABLE["C08"] = {
 }
 
 TABLE["C11"] = {
-    "pipelines": [{"name": "alloc", "cmd": ["alloc"], "n_quick": 300, "n_thorough": 20000, "timeout": 900, "timeout_thorough": 3400}],
+    "pipelines": [{"name": "alloc", "cmd": ["alloc"], "n_quick": 300, "n_thorough": 20000, "timeout": 900, "timeout_thorough": 3400},
+                  {"name": "enc-arm", "cmd": ["enc-arm"], "n_quick": 2000, "n_thorough": 100000, "timeout_thorough": 3000, "own_keys_only": ["c11."], "filter_prefix": ["winalloc"]}],
     "fail_keys": ["c11."],
     "trusted_base": TB_COMMON + ["the shim's scripted mmap (fail / honour the hint / place at a chosen address, always backed by a real mapping) stands in for the kernel; the real kernel is used for the reserved-neighbourhood cases", "the oracle answers fed to the model are the addresses the (scripted or real) kernel returned"],
-    "rule": "6 target addresses (0x10000 and 64 MiB: window clipped at 0; exactly 128 MiB; 4 GiB; mid; top of user space) x sizes 8/12/20 x boundary scripts (placement exactly at +-range, one page inside, one page outside then inside, failures then honour, far away), PRNG scripts of 1-6 answers, whole-window exhaustion (all 65537 probes fail) and full-except-one-page at offsets 0, 1, middle, last-1, last for clipped and unclipped windows, real kernel with the +-128 MiB neighbourhood reserved PROT_NONE except one page (3 positions) or entirely, and one complete install whose allocation is exhausted. Distinct by (src, size, answer sequence)",
+    "rule": "6 target addresses (0x10000 and 64 MiB: window clipped at 0; exactly 128 MiB; 4 GiB; mid; top of user space) x sizes 8/12/20 x boundary scripts (placement exactly at +-range, one page inside, one page outside then inside, failures then honour, far away), PRNG scripts of 1-6 answers, whole-window exhaustion (all 65537 probes fail) and full-except-one-page at offsets 0, 1, middle, last-1, last for clipped and unclipped windows, real kernel with the +-128 MiB neighbourhood reserved PROT_NONE except one page (3 positions) or entirely, and one complete install whose allocation is exhausted; plus the Windows / AArch64 allocator judged on the source as translated (GenWinA64 run by the driver on page size + VirtualAlloc answer scripts: an accepted placement is reachable by the entry encoder, everything obtained and not returned was released). Distinct by (src, size, answer sequence)",
     "assumptions": ["mmap never returns an address the process already holds (freshness of the oracle)", "src + range does not overflow u64 (user-space addresses)"],
     "level_text": "Theorems for all target addresses, page sizes and kernel answer sequences: an accepted placement is strictly within +-128 MiB and is the only mapping kept; on panic nothing obtained is left mapped (C11_sound); the loop makes at most 2*range/page+1 probes (C11_terminates, C11_probe_bound); every accepted placement is encodable by the x86-64 entry branch and by the AArch64 B (C11_reach_x86, C11_reach_a64, through C01/C15). Correspondence: the unmodified allocator under scripted and real kernels, event log compared call by call.",
     "level_note": "Trusted: Lean kernel, shim, oracle freshness. Windows VirtualAlloc path not modelled. Bridge T_alloc: allocate_jit_memory_unix as translated from the source on this run (fuel-bounded loop, OS calls logged) equals Alloc.search for every target, page size and answer script; T_alloc_sound reads C11's range clause off the translated code.",
@@ -242,6 +243,7 @@ FALLBACK_RELEVANCE = [
     ("Layout.", ["C02", "C04", "C05", "C09", "C10", "C14", "C12", "C17"]),
     ("Fns.GenX86.allocate", ["C11"]), ("Fns.GenX86.generate_branch", ["C01", "C13"]), ("Fns.GenX86.generate_will_return", ["C10"]),
     ("Fns.GenMac", ["C17"]),
+    ("Fns.GenWin", ["C11"]),
     ("Fns.GenIf", ["C02", "C04", "C05", "C06", "C07", "C09", "C10", "C14"]),
     ("Fns.GenX86", MACHINE_PROPS), ("Fns.GenA64", ["C15", "C13", "C11"]), ("Fns.GenA32", ["C16", "C13"]),
 ]
